@@ -307,6 +307,27 @@ theorem none_inner_optional :
 theorem hasNoneOpt_position (pre post : List FieldDecl) : hasNoneOpt (.anyOf (pre ++ .noneF :: post)) = true := by
   simp [hasNoneOpt, isNoneF]
 
+/-! ### the default `= None` -/
+
+/-- `a: Optional[int] = None`, `a: int | None = None` and `a: AnyOf[Integer, None] = None` + `_optional` are
+    the same declaration: `= None` is validated but is not a default, and the field stays optional (typing
+    detection of the None member is independent of the `=` default).  `a: Integer = None` is rejected. -/
+theorem none_default_equiv :
+    let a : FieldSp := annF (.optional (.builtin .int)) (.eq .none 4)
+    let b : FieldSp := annF (.pipe (.builtin .int) .noneLit) (.eq .none 4)
+    let c : FieldSp := annF (.anyOf fInt .noneLit) (.eq .none 4) true
+    FieldSame a c ∧ FieldSame b c
+    ∧ fieldSupported noRe tm true a = true ∧ fieldSupported noRe tm false b = true
+    ∧ fieldSupported noRe tm false c = true
+    ∧ elabField noRe tm false a = .ok (.field (.anyOf [.integer {}, .noneF]) false none)
+    ∧ elabField noRe tm false b = elabField noRe tm false a
+    ∧ elabField noRe tm false c = elabField noRe tm false a
+    ∧ elabField noRe tm false (annF (.optional (.builtin .int))) = elabField noRe tm false a
+    ∧ elabField noRe tm false (annF fInt (.eq .none 4)) = .error .typeErr :=
+  ⟨⟨rfl, SameMeaning.optionalAlt .anyOf (SameMeaning.scalar .builtin .cls .int), rfl, rfl⟩,
+   ⟨rfl, SameMeaning.alt .pipe .anyOf (SameMeaning.scalar .builtin .cls .int) SameMeaning.none, rfl, rfl⟩,
+   rfl, rfl, rfl, rfl, rfl, rfl, rfl, rfl⟩
+
 /-! ### single-argument tuple forms -/
 
 /-- `t: tuple[int]`, `t: typing.Tuple[int]`, `t: Tuple[Integer]`, `t = Tuple(items=Integer)` and
